@@ -55,9 +55,10 @@ Qed.
 
 Definition kinds : list okind :=
   [KSetCache; KBuildNoSess; KSetTicket ANil; KSetTicket AInit; KSetTicket AUninit;
-   KSetPsk ANil; KSetPsk AInit; KSetPsk AUninit; KSetState; KBuild; KHandshake].
+   KSetPsk ANil; KSetPsk AInit; KSetPsk AUninit; KSetState; KBuild; KHandshake;
+   KReuseTicket; KReusePsk; KEdit].
 Lemma kinds_complete k : In k kinds.
-Proof. destruct k as [| |[]|[]| | |]; cbn; auto 12. Qed.
+Proof. destruct k as [| |[]|[]| | | | | |]; cbn; auto 16. Qed.
 
 Definition succs (cw : cworld) (n : node) : list node :=
   flat_map (fun k => match legal_stepk cw (fst n) k with
@@ -103,15 +104,23 @@ Definition wire_p (cw : cworld) (l : lst) (c : cstate) (g : gstate) : bool :=
   | INone => true
   end.
 
+(* after a build that succeeded with a PSK in place, the binders are those of the hello just marshaled *)
+Definition binder_p (k : okind) (cg : cstate * gstate) (r : res unit) : bool :=
+  match k, r with
+  | KBuild, Ok _ | KHandshake, Ok _ => negb (cst_eqb (cs (fst cg)) PskAllSet) || binder_fresh (fst cg)
+  | _, _ => true
+  end.
 Definition kind_ok (cw : cworld) (R : list (N * node)) (l : lst) (c : cstate) (g : gstate) (k : okind) : bool :=
   match legal_stepk cw l k with
-  | Some l2 => negb (is_panic (snd (cstep cw k c g))) && memb (l2, fst (cstep cw k c g)) R
+  | Some l2 => negb (is_panic (snd (cstep cw k c g))) && memb (l2, fst (cstep cw k c g)) R &&
+               binder_p k (fst (cstep cw k c g)) (snd (cstep cw k c g))
   | None => true
   end &&
   (cw_golang cw || negb (forbiddenk cw l k) || rejected (snd (cstep cw k c g))).
 Definition node_ok (cw : cworld) (R : list (N * node)) (n : node) : bool :=
   forallb (kind_ok cw R (fst n) (fst (snd n)) (snd (snd n))) kinds &&
-  keys_p cw (fst (snd n)) && wire_p cw (fst n) (fst (snd n)) (snd (snd n)).
+  keys_p cw (fst (snd n)) && wire_p cw (fst n) (fst (snd n)) (snd (snd n)) &&
+  negb (herr (fst (snd n))).      (* no Handshake of a legal history fails for a lost key-share key or a stale binder *)
 Definition check_with (cw : cworld) (R : list (N * node)) : bool :=
   memb (node0 cw) R && forallb (fun hn => node_ok cw R (snd hn)) R.
 Definition check (cw : cworld) : bool := check_with cw (reach cw).
@@ -173,6 +182,7 @@ Lemma inR_kind cw l c g k : cworld_ok cw = true -> inR cw (l, (c, g)) ->
 Proof.
   intros W I. pose proof (inR_node_ok cw _ W I) as N. unfold node_ok in N. cbv beta iota delta [fst snd] in N.
   apply andb_prop in N. destruct N as [N _]. apply andb_prop in N. destruct N as [N _].
+  apply andb_prop in N. destruct N as [N _].
   rewrite forallb_forall in N. exact (N k (kinds_complete k)).
 Qed.
 
@@ -180,8 +190,16 @@ Lemma inR_step cw l c g k l2 : cworld_ok cw = true -> inR cw (l, (c, g)) -> lega
   is_panic (snd (cstep cw k c g)) = false /\ inR cw (l2, fst (cstep cw k c g)).
 Proof.
   intros W I L. pose proof (inR_kind cw l c g k W I) as K. unfold kind_ok in K. rewrite L in K.
-  apply andb_prop in K. destruct K as [K _]. apply andb_prop in K. destruct K as [P M].
+  apply andb_prop in K. destruct K as [K _]. apply andb_prop in K. destruct K as [K _].
+  apply andb_prop in K. destruct K as [P M].
   split; [destruct (is_panic _); [discriminate|reflexivity] | exact (memb_in _ _ M)].
+Qed.
+
+Lemma inR_binder cw l c g k l2 : cworld_ok cw = true -> inR cw (l, (c, g)) -> legal_stepk cw l k = Some l2 ->
+  binder_p k (fst (cstep cw k c g)) (snd (cstep cw k c g)) = true.
+Proof.
+  intros W I L. pose proof (inR_kind cw l c g k W I) as K. unfold kind_ok in K. rewrite L in K.
+  apply andb_prop in K. destruct K as [K _]. apply andb_prop in K. destruct K as [_ B]. exact B.
 Qed.
 
 (* ---- the data: a datum flagged as injected is the injected value ---- *)
